@@ -30,6 +30,9 @@ pub enum Edit {
     Append { file: usize, len: u32, seed: u32 },
     /// whole file replaced: 0 empty, 1 random, 2 text, 3 "jbk"+random, 4 another valid container
     Replace { file: usize, kind: u8, len: u32, seed: u32 },
+    /// C04 live phase: the file is NOT altered beforehand; the reader child opens the container,
+    /// reads it, xors this byte in place and reads and checks again through the same objects
+    LiveXor { file: usize, pos: u32, mask: u8 },
 }
 
 #[derive(Serialize, Deserialize, Clone, Copy, Debug, PartialEq, Eq, Hash, PartialOrd, Ord)]
@@ -98,7 +101,7 @@ pub fn apply_edits(base: &Base, edits: &[Edit]) -> BTreeMap<usize, Vec<u8>> {
     let mut changed: BTreeMap<usize, Vec<u8>> = BTreeMap::new();
     for e in edits {
         let file = match e {
-            Edit::Xor { file, .. } | Edit::XorFixCrc { file, .. } | Edit::Zero { file, .. } | Edit::Overwrite { file, .. } | Edit::Truncate { file, .. } | Edit::Append { file, .. } | Edit::Replace { file, .. } => *file,
+            Edit::Xor { file, .. } | Edit::XorFixCrc { file, .. } | Edit::Zero { file, .. } | Edit::Overwrite { file, .. } | Edit::Truncate { file, .. } | Edit::Append { file, .. } | Edit::Replace { file, .. } | Edit::LiveXor { file, .. } => *file,
         };
         let d = changed.entry(file).or_insert_with(|| base.data[file].clone());
         match e {
@@ -130,6 +133,8 @@ pub fn apply_edits(base: &Base, edits: &[Edit]) -> BTreeMap<usize, Vec<u8>> {
                     d[s..end].copy_from_slice(&r);
                 }
             }
+            // the file is written out pristine (and restored afterwards): the child alters it itself
+            Edit::LiveXor { .. } => {}
             Edit::Truncate { len, .. } => d.truncate(*len as usize),
             Edit::Append { len, seed, .. } => d.extend(content_bytes(*seed, *len as usize, Entropy::High)),
             Edit::Replace { kind, len, seed, .. } => {
@@ -626,7 +631,7 @@ impl Base {
         out
     }
     fn job(&self, dir: &Path, full: bool) -> Job {
-        Job { dir: dir.to_string_lossy().to_string(), main: self.main.clone(), files: self.files.clone(), index_names: self.index_names.clone(), addresses: self.addresses.clone(), full, concurrent: self.concurrent }
+        Job { dir: dir.to_string_lossy().to_string(), main: self.main.clone(), files: self.files.clone(), index_names: self.index_names.clone(), addresses: self.addresses.clone(), full, concurrent: self.concurrent, live: None }
     }
 }
 
@@ -642,6 +647,10 @@ pub struct Runner {
     pub bases: Arc<Vec<Base>>,
     pub scratch: PathBuf,
     pub restarts: AtomicUsize,
+    /// set by the sink once one violation signature has been met very often: the verdict cannot
+    /// change any more and the remaining cases (each costing seconds when the reader hangs or
+    /// dies) are skipped; recorded in the evidence
+    pub stop: std::sync::atomic::AtomicBool,
 }
 
 fn write_base(base: &Base, dir: &Path) {
@@ -666,7 +675,7 @@ impl Runner {
                     let mut dirs: BTreeMap<usize, PathBuf> = BTreeMap::new();
                     loop {
                         let i = next.fetch_add(1, Ordering::Relaxed);
-                        if i >= cases.len() {
+                        if i >= cases.len() || self.stop.load(Ordering::Relaxed) {
                             break;
                         }
                         let case = &cases[i];
@@ -680,7 +689,11 @@ impl Runner {
                         for (fi, d) in &changed {
                             std::fs::write(dir.join(&base.files[*fi]), d).unwrap();
                         }
-                        let job = base.job(dir, full);
+                        let mut job = base.job(dir, full);
+                        if let Some(Edit::LiveXor { file, pos, mask }) = case.edits.iter().find(|e| matches!(e, Edit::LiveXor { .. })) {
+                            job.live = Some((base.files[*file].clone(), *pos as u64, *mask));
+                            job.full = true;
+                        }
                         let mut outcomes = vec![];
                         for p in profiles {
                             let ch = children.entry(*p).or_insert_with(|| Child::spawn(*p, &self.scratch, w));
@@ -730,6 +743,15 @@ pub fn judge_c04(base: &Base, file: usize, uuid: &str, d: &FDump) -> Option<Fail
     }
     if matches!(d.open, Some(Acc::Ok(()))) && !not_success(d.container_check.as_ref()) {
         return Some(Failure::new("container-check-true-after-alteration", format!("Container::check answers Ok(true) although a byte of the checked range of pack {key} was altered")));
+    }
+    None
+}
+
+/// C04, live phase: whatever one opened container serves differently after a byte of its file was
+/// altered under it, its own check() must not keep answering success.
+pub fn judge_c04_live(d: &FDump) -> Option<Failure> {
+    if d.live_changed == Some(true) && !not_success(d.container_check.as_ref()) {
+        return Some(Failure::new("live-alteration-served-while-check-true", "an opened container returns other entries/contents after a byte of its file was altered in place, and its check(), asked again on the same object, still answers Ok(true)".to_string()));
     }
     None
 }
@@ -903,7 +925,7 @@ pub fn base_from_replay(r: &FaultReplay) -> Base {
 pub fn eval_replay(id: &str, r: &FaultReplay) -> Result<(), Failure> {
     let scratch = tempfile::Builder::new().prefix("jbkv-fault-replay-").tempdir_in(scratch_root()).unwrap();
     let base = base_from_replay(r);
-    let runner = Runner { bases: Arc::new(vec![base]), scratch: scratch.path().to_path_buf(), restarts: AtomicUsize::new(0) };
+    let runner = Runner { bases: Arc::new(vec![base]), scratch: scratch.path().to_path_buf(), restarts: AtomicUsize::new(0), stop: std::sync::atomic::AtomicBool::new(false) };
     let base = &runner.bases[0];
     let pristine = match runner.run_one(&FaultCase { base: 0, edits: vec![] }, r.profile, true) {
         Outcome::Value(d) => *d,
@@ -912,6 +934,14 @@ pub fn eval_replay(id: &str, r: &FaultReplay) -> Result<(), Failure> {
     let o = runner.run_one(&FaultCase { base: 0, edits: r.edits.clone() }, r.profile, true);
     match id {
         "C04" => {
+            if r.edits.iter().any(|e| matches!(e, Edit::LiveXor { .. })) {
+                if let Outcome::Value(d) = &o {
+                    if let Some(f) = judge_c04_live(d) {
+                        return Err(f);
+                    }
+                }
+                return Ok(());
+            }
             if let (Outcome::Value(d), Some((file, uuid))) = (&o, &r.target) {
                 if let Some(f) = judge_c04(base, *file, uuid, d) {
                     return Err(f);
@@ -1108,7 +1138,7 @@ pub fn check_cmd(id: &str, tier: Tier) -> i32 {
         }
     }
     let profiles: Vec<Profile> = if id == "C06" || tier == Tier::Thorough { vec![Profile::Release, Profile::Dbg] } else { vec![Profile::Release] };
-    let mut runner = Runner { bases: Arc::new(bases), scratch: scratch.path().to_path_buf(), restarts: AtomicUsize::new(0) };
+    let mut runner = Runner { bases: Arc::new(bases), scratch: scratch.path().to_path_buf(), restarts: AtomicUsize::new(0), stop: std::sync::atomic::AtomicBool::new(false) };
 
     // ---- pristine dumps (self-check of the child protocol: must read cleanly and agree across profiles)
     let violations_before_pristine = summary.violations.len();
@@ -1195,6 +1225,17 @@ pub fn check_cmd(id: &str, tier: Tier) -> i32 {
                                     pos += step;
                                 }
                             }
+                        }
+                    }
+                    // live phase: the byte is altered under an opened container, which is then asked again
+                    // (positions stratified over the structures of the pack; bases of every size)
+                    if let Some(m) = base.maps[fi].as_ref() {
+                        let regs: Vec<&crate::indep::Region> = m.regions.iter().filter(|r| r.start >= start && r.end <= end && r.end > r.start).collect();
+                        let nlive = if tier == Tier::Thorough { 120 } else { 24 };
+                        for k in 0..nlive.min(4 * regs.len()) {
+                            let r = regs[k % regs.len()];
+                            let pos = r.start + next() % (r.end - r.start);
+                            cases.push((FaultCase { base: bi, edits: vec![Edit::LiveXor { file: fi, pos: pos as u32, mask: [0x01u8, 0x80, 0xFF][k % 3] }] }, Some((fi, uuid.clone()))));
                         }
                     }
                     // multi-position and range scripts inside the range
@@ -1326,6 +1367,7 @@ pub fn check_cmd(id: &str, tier: Tier) -> i32 {
                 Edit::Truncate { file, len } => (*file, *len as u64, "truncate"),
                 Edit::Append { file, .. } => (*file, 0, "append"),
                 Edit::Replace { file, .. } => (*file, 0, "replace"),
+                Edit::LiveXor { file, pos, .. } => (*file, *pos as u64, "live-xor"),
             };
             let kind = if matches!(first, Edit::Append { .. } | Edit::Replace { .. }) { "whole-file".to_string() } else { base.kind_at(efile, epos) };
             let oc = o.class();
@@ -1341,6 +1383,18 @@ pub fn check_cmd(id: &str, tier: Tier) -> i32 {
             }
             let pristine = &base.pristine[profile];
             let (failure, nontrivial) = match id {
+                "C04" if matches!(first, Edit::LiveXor { .. }) => match o {
+                    Outcome::Value(d) => {
+                        l_classes.push(format!("live:{}", match (d.live_changed, &d.container_check) {
+                            (Some(true), Some(Acc::Ok(true))) => "served-changed+check-true",
+                            (Some(true), _) => "served-changed+check-fails",
+                            (Some(false), _) => "served-unchanged",
+                            (None, _) => "not-run",
+                        }));
+                        (judge_c04_live(d), d.live_changed == Some(true))
+                    }
+                    _ => (None, false),
+                },
                 "C04" => {
                     // positions that really changed inside the target's checked range, exempt bytes aside
                     let mut required = false;
@@ -1434,7 +1488,11 @@ pub fn check_cmd(id: &str, tier: Tier) -> i32 {
             if known.contains(&f.sig) {
                 *t.excluded.entry(f.sig.clone()).or_default() += 1;
             } else {
-                *t.classes.entry(format!("violation:{}", f.sig)).or_default() += 1;
+                let n = t.classes.entry(format!("violation:{}", f.sig)).or_default();
+                *n += 1;
+                if *n >= 400 {
+                    runner.stop.store(true, Ordering::Relaxed);
+                }
                 if !t.failures.contains_key(&f.sig) {
                     t.failures.insert(f.sig.clone(), (f, res.case.clone(), profile, target.clone()));
                 }
@@ -1442,6 +1500,9 @@ pub fn check_cmd(id: &str, tier: Tier) -> i32 {
         }
     });
     let t = tally.into_inner().unwrap();
+    if runner.stop.swap(false, Ordering::Relaxed) {
+        summary.extra.insert("enumeration_cut_short".into(), serde_json::Value::String("one violation signature was met 400 times: the remaining cases were skipped (the run fails anyway)".into()));
+    }
     summary.merged.evaluations += t.evaluations;
     summary.merged.cases += plain.len() as u64;
     summary.merged.nontrivial_cases = t.nontrivial_cases;
